@@ -7,7 +7,8 @@
 From Coq Require Import NArith List Bool.
 From Pq Require Import Format.Nested Impl.CAssemble Impl.CAssembleFixed Proofs.NestedProofs Proofs.CAssembleProofs
   Proofs.CAssemblePagesProofs Proofs.NestedMapProofs Proofs.NestedInvProofs
-  Proofs.CAssembleTightProofs Proofs.CAssembleFixedProofs Proofs.CAssembleV2Proofs.
+  Proofs.CAssembleTightProofs Proofs.CAssembleFixedProofs Proofs.CAssembleV2Proofs
+  Proofs.NestedStructProofs.
 Import ListNotations.
 Open Scope N_scope.
 
@@ -143,6 +144,45 @@ Theorem C15_map_pages_partial :
     end.
 Proof. exact map_pages_v1. Qed.
 Print Assumptions C15_map_pages_partial.
+
+(* LIST / MAP groups below struct groups (flattened column "s1....sk.NAME"): every optional
+   ancestor adds one definition level meaning "no collection in this row".  Spec side: folding
+   those levels (fold_def with the shift core._nested_levels computes) turns the entries of a
+   struct-nested row into the entries of the flattened row in the one-level shape flat_shape, so
+   all theorems above apply to such columns. *)
+Theorem C15_struct_levels :
+  forall (V : Type) (s_off : N) (sh : shape) (x : srow V), wf_srow V s_off sh x = true ->
+    map (fun e : entry => (fst e, fold_def (lshift s_off sh) (snd e))) (srow_entries V s_off sh x)
+      = row_entries (flat_shape s_off sh) (flatten V x) /\
+    srow_values V x = row_values (flatten V x) /\
+    wf_row (flat_shape s_off sh) (flatten V x) = true /\
+    smax_def s_off sh - lshift s_off sh = max_def (flat_shape s_off sh).
+Proof. exact struct_levels_fold. Qed.
+Print Assumptions C15_struct_levels.
+
+(* impl side: the model of core._nested_levels (count of non-REQUIRED groups on path[:-2]) yields
+   exactly that fold, that null flag and that max level for any stack of ancestor structs *)
+Theorem C15_nested_levels_model :
+  forall (outer : list bool) (sh : shape) (defi : list N),
+    nested_levels (struct_path outer sh) defi (smax_def (count_true outer) sh)
+    = (row_opt (flat_shape (count_true outer) sh),
+       map (fold_def (lshift (count_true outer) sh)) defi,
+       max_def (flat_shape (count_true outer) sh)).
+Proof. exact nested_levels_struct. Qed.
+Print Assumptions C15_nested_levels_model.
+
+(* core.py defect (repaired by a fix: commit): before, null came from the outermost group only and
+   the levels were passed unfolded - a null list inside an optional struct read as [] *)
+Theorem C15_struct_unfolded_refuted :
+  exists (s_off : N) (sh : shape) (x : srow N) (wrong : row N),
+    wf_srow N s_off sh x = true /\
+    read_col_v1 true (smax_def s_off sh) (empty_arr 1) 0 [(srow_entries N s_off sh x, srow_values N x)] = AOk [wrong] /\
+    wrong <> flatten N x /\
+    read_col_v1 (row_opt (flat_shape s_off sh)) (max_def (flat_shape s_off sh)) (empty_arr 1) 0
+      [(map (fun e : entry => (fst e, fold_def (lshift s_off sh) (snd e))) (srow_entries N s_off sh x), srow_values N x)]
+    = AOk [flatten N x].
+Proof. exact struct_unfolded_refuted. Qed.
+Print Assumptions C15_struct_unfolded_refuted.
 
 (* the parameters read_col derives through schema.py (max_repetition_level, max_definition_level,
    null = not is_required(path[0])) for the three-level LIST / MAP leaf paths are the
